@@ -4,6 +4,7 @@ Property theorems only.
 -/
 import Biogo.Spec.FeatIO
 import Biogo.Proofs.FeatBedRound
+import Biogo.Proofs.FeatGffRound
 
 namespace Biogo.Properties.C02
 open Biogo.BytesFeat Biogo.Gff Biogo.FeatIO
@@ -98,5 +99,75 @@ theorem oneToZero_none_iff (p : Int) : oneToZero p = none ↔ p = 0 := by
   by_cases h : p = 0
   · simp [h]
   · by_cases h2 : p > 0 <;> simp [h, h2]
+
+/-! ## GFF features -/
+
+/-- C02, first sentence for GFF: a GFF2 feature with well-formed fields (`gffWF`: non-empty,
+    tab- and newline-free, trimmed text fields not starting with `#`; int64 coordinates with
+    start < end — positive length; strand ∈ {−1,0,1}; frame ∈ {−1..2}; nil / finite / infinite
+    score; tags over `[A-Za-z_]+`; `;`-free trimmed values, possibly empty; comments) written by
+    `Writer.Write`, with or without the `##gff-version 2` header, and parsed by `Reader.Read`
+    yields one feature equal to the original in every field (nil and empty attribute lists
+    identified: the text cannot tell them apart), then `io.EOF`; the reported count is the number
+    of bytes emitted.  `FloatLaw` is the single assumed law about `%v` / `ParseFloat`. -/
+theorem gff_roundtrip (o : Oracles) (f : Feature) (hdr : Bool) (hwf : gffWF f = true) (hfl : FloatLaw o f.score) :
+    ∃ text n, writeFeature o f = .ok (text, n) ∧ n = text.length ∧
+      ∃ g, (readAll o ((if hdr then headerText else []) ++ text)).1 = [.item (.feature g), .eof] ∧
+        norm g = norm f ∧
+        (readAll o ((if hdr then headerText else []) ++ text)).2.md.version = (if hdr then 2 else 0) := by
+  obtain ⟨_, _, _, _, _, hlt, _⟩ := gffWF_unpack hwf
+  refine ⟨featureText o f ++ [10], (featureText o f).length + 1, ?_, by simp, parsed f, ?_, norm_parsed f, ?_⟩
+  · simp [writeFeature, Int.not_le.mpr hlt]
+  · rw [readAll_feature o f hdr hwf hfl]
+  · rw [readAll_feature o f hdr hwf hfl]
+
+/-- C02, "GFF text carries 1-based inclusive coordinates while the parsed feature exposes the same
+    interval zero-based half-open, so Start, End and Len are preserved" -/
+theorem gff_coords (o : Oracles) (f : Feature) (hdr : Bool) (hwf : gffWF f = true) (hfl : FloatLaw o f.score) :
+    ∃ g, (readAll o ((if hdr then headerText else []) ++ (featureText o f ++ [10]))).1 = [.item (.feature g), .eof] ∧
+      g.start = f.start ∧ g.stop = f.stop ∧ g.len = f.len := by
+  refine ⟨parsed f, by rw [readAll_feature o f hdr hwf hfl], ?_⟩
+  have : (parsed f).start = f.start ∧ (parsed f).stop = f.stop := by
+    unfold parsed
+    split
+    · split <;> simp
+    · simp
+  exact ⟨this.1, this.2, by simp [Feature.len, this.1, this.2]⟩
+
+/-- the text is 1-based inclusive: for a non-negative zero-based start, the start column of the
+    written line is `Start + 1` and the end column is `End` -/
+theorem gff_text_is_one_based (o : Oracles) (f : Feature) (hwf : gffWF f = true) (hfl : FloatLaw o f.score)
+    (hs : 0 ≤ f.start) :
+    (splitN 9 10 (trimSpace (featureText o f ++ [10])))[3]? = some (formatInt (f.start + 1)) ∧
+    (splitN 9 10 (trimSpace (featureText o f ++ [10])))[4]? = some (formatInt f.stop) := by
+  rw [trimSpace_append_nl, trimSpace_featureText o f hwf, splitN_effFields o f hwf hfl]
+  obtain ⟨extra, he, _⟩ := effFields_shape o f
+  have hz : zeroToOne f.start = f.start + 1 := by unfold zeroToOne; simp [hs]
+  rw [he]
+  simp [fields8, hz]
+
+/-- "reported byte counts equal bytes emitted", GFF feature writer (every outcome) -/
+theorem gff_write_count (o : Oracles) (f : Feature) (text : Bytes) (n : Nat)
+    (h : writeFeature o f = .ok (text, n)) : n = text.length := by
+  unfold writeFeature at h
+  split at h
+  · cases h
+  · cases h; simp
+
+/-! non-vacuity: a feature with a negative start, an infinite score (formatted `+Inf`), three
+    attributes (one with an empty value, one quoted with spaces) and a comment -/
+def gffExample : Feature :=
+  { seqName := ofString "chr 1", source := ofString "src#", feature := ofString "gene", start := -3, stop := 9223372036854775807,
+    score := some 0x7FF0000000000000, strand := 1, frame := 2,
+    attrs := some [⟨ofString "ID", ofString "x"⟩, ⟨ofString "Flag", []⟩, ⟨ofString "Note_a", ofString "\"two words\""⟩],
+    comments := ofString "a comment" }
+
+def exampleOracles : Oracles :=
+  { parseFloat := fun t => if t == ofString "+Inf" then some 0x7FF0000000000000 else none,
+    formatFloat := fun _ => ofString "+Inf", parseDate := fun _ => false }
+
+example : gffWF gffExample = true := by decide +kernel
+example : FloatLaw exampleOracles gffExample.score := by
+  simp only [FloatLaw, gffExample]; exact ⟨by decide +kernel, by decide +kernel⟩
 
 end Biogo.Properties.C02
